@@ -47,6 +47,11 @@ def bounds():
 CBLDM = [("contracts.exact", "cbldm")]
 
 
+def adaptors():
+    from contracts import adaptors as A
+    return list(A.ALL)
+
+
 def relational():
     from contracts import relational as R
     return list(R.ALL)
